@@ -93,6 +93,11 @@ type merger struct {
 	nested map[string][]string // "type.key" -> expected key list of a nested inheriting object
 }
 
+// apPool: what an additionalProperties rule may say; every name of a schema type is a value of its own,
+// two different names never agree (only "any" and true mean the same)
+var apPool = []string{"true", "false", "any", "string", "integer", "@t0",
+	"string", "email", "uri", "uuid", "date", "datetime", "float", "decimal", "boolean", "object", "array", "null", "enum", "mixed"}
+
 func normAP(s string) string {
 	if s == "any" {
 		return "true"
@@ -548,7 +553,7 @@ func genCase(t *rapid.T) Case {
 			o.AllOf = rapid.SliceOfNDistinct(rapid.SampledFrom(pool), 1, k, func(s string) string { return s }).Draw(t, nm+"parents")
 		}
 		if rapid.IntRange(0, 3).Draw(t, nm+"hasAP") == 0 {
-			o.AP = rapid.SampledFrom([]string{"true", "false", "any", "string", "integer", "@t0"}).Draw(t, nm+"ap")
+			o.AP = rapid.SampledFrom(apPool).Draw(t, nm+"ap")
 		}
 		if nm != "@main" && rapid.IntRange(0, 11).Draw(t, nm+"withheld") == 0 {
 			o.Withheld = true
